@@ -84,6 +84,62 @@ func consOfEdge(e edge) []DCons {
 	if !ok {
 		return nil
 	}
+	return boolFacts(cond, truth, 0)
+}
+
+// boolFacts: difference constraints implied by boolean value v having the given truth. Handles comparisons, negation
+// and the phi that go/ssa produces for `x := a && b` / `x := a || b` stored in a variable.
+func boolFacts(v ssa.Value, truth bool, depth int) []DCons {
+	if depth > 6 {
+		return nil
+	}
+	switch x := v.(type) {
+	case *ssa.UnOp:
+		if x.Op == token.NOT {
+			return boolFacts(x.X, !truth, depth+1)
+		}
+		if x.Op == token.MUL {
+			if a, ok := x.X.(*ssa.Alloc); ok {
+				if sv := singleStore(a); sv != nil {
+					return boolFacts(sv, truth, depth+1)
+				}
+			}
+		}
+		return nil
+	case *ssa.Phi:
+		// a && b : phi [false from the block where a is false, b from the block reached when a is true]; true => both
+		// a || b : phi [true, b]; false => both false
+		var rest []int
+		for i, ed := range x.Edges {
+			if k, ok := ed.(*ssa.Const); ok && k.Value != nil && (k.Value.ExactString() == "true") != truth {
+				continue // this incoming edge yields the opposite truth: not taken
+			}
+			rest = append(rest, i)
+		}
+		if len(rest) != 1 {
+			return nil
+		}
+		i := rest[0]
+		out := boolFacts(x.Edges[i], truth, depth+1)
+		// facts needed to reach the predecessor block
+		pred := x.Block().Preds[i]
+		for d := 0; d < 4 && len(pred.Preds) == 1; d++ {
+			q := pred.Preds[0]
+			for si, sb := range q.Succs {
+				if sb == pred {
+					if c2 := condOf(q); c2 != nil {
+						out = append(out, boolFacts(c2, si == 0, depth+1)...)
+					}
+				}
+			}
+			pred = q
+		}
+		return out
+	}
+	return binFacts(v, truth)
+}
+
+func binFacts(cond ssa.Value, truth bool) []DCons {
 	b, ok := cond.(*ssa.BinOp)
 	if !ok {
 		return nil
